@@ -418,6 +418,32 @@ Proof.
   intros Hs H. apply serve_is_commit_log in H. subst wl'. apply writelog_correct_lem. exact Hs.
 Qed.
 
+(* ---------- multi-hop answers ---------- *)
+Lemma apply_writelog_app old wl1 wl2 :
+  apply_writelog old (wl1 ++ wl2) = apply_writelog (apply_writelog old wl1) wl2.
+Proof. rewrite !apply_writelog_simple. unfold apply_simple. apply fold_left_app. Qed.
+
+(* the concatenation of the hop logs in path order takes the start contents
+   to the end contents, for any number of hops, whether or not hops write
+   the same keys *)
+Lemma multi_hop_log_correct_lem path : forall old, sorted old ->
+  apply_writelog old (path_log old path) = run_path old path.
+Proof.
+  induction path as [|ops r IH]; intros old Hs; cbn [path_log run_path].
+  - reflexivity.
+  - rewrite apply_writelog_app, (writelog_correct_lem old ops Hs).
+    apply IH. apply sorted_contents. exact Hs.
+Qed.
+
+(* both hops write the same key: path order is right, newest-hop-first is not *)
+Example multi_hop_same_key :
+  let old : kvmap := [] in
+  let path := [[OInsert [97; 98] [120]]; [OInsert [97; 98] []]] in
+  path_log old path = [([97; 98], Some [120]); ([97; 98], Some [])] /\
+  apply_writelog old (path_log old path) = run_path old path /\
+  apply_writelog old (rev (path_log old path)) <> run_path old path.
+Proof. cbv zeta. split; [vm_compute; reflexivity|]. split; [vm_compute; reflexivity|]. vm_compute. discriminate. Qed.
+
 (* ---------- hashed write log ---------- *)
 Lemma revive_commit new l :
   (forall k e, In (k, e) l -> forall v, pe_value e = Some v -> get k new = Some v) ->
